@@ -50,5 +50,25 @@ JudgeWord(e) ==
        ELSE IF c.has /\ e.disp # c.disp THEN "V:displacement"
        ELSE "ok"
 JudgeChunk(e) == IF e.panics # 0 THEN "V:panic-in-sweep" ELSE IF e.insts + e.errs # e.words THEN "V:neither-instruction-nor-error" ELSE "ok"
-Judge(e) == IF e.ev = "chunk" THEN JudgeChunk(e) ELSE JudgeWord(e)
+\* ---- agreement with the reference decoder on the whole word space (records of TestVerifA64Diff) ----
+\* the system-instruction encodings goom deliberately leaves undecoded: SYS / SYSL, 1101 0101 00L0 1 op1 CRn CRm op2 Rt
+\* (bits 31..22 = 1101010100, bit 20 = 0, bit 19 = 1); e.b = the word's four bytes, least significant first
+SysSpace(e) == /\ e.b[4] = 213                                   \* 0xD5
+               /\ e.b[3] \div 64 = 0                             \* bits 23, 22 = 00
+               /\ (e.b[3] \div 16) % 2 = 0                       \* bit 20 = 0
+               /\ (e.b[3] \div 8) % 2 = 1                        \* bit 19 = 1
+SameFacts(e) == /\ e.err = e.rerr /\ e.panic = "" /\ e.rpanic = ""
+                /\ (~e.err => /\ e.op = e.rop /\ e.has = e.rhas /\ (e.has => e.disp = e.rdisp))
+JudgeDiff(e) == IF e.panic # "" THEN "V:panic"
+                ELSE IF SameFacts(e) THEN (IF e.agree THEN "ok" ELSE "V:driver-and-judge-disagree")
+                ELSE IF SysSpace(e) THEN "outside-model"
+                ELSE IF e.err # e.rerr THEN "V:decodability-differs-from-reference"
+                ELSE IF e.op # e.rop THEN "V:opcode-differs-from-reference"
+                ELSE "V:displacement-differs-from-reference"
+\* a chunk of the sweep: every word either agrees or lies in the exempt space; chunk 0xD5 is the only one that may hold exempt words
+JudgeDChunk(e) == IF e.agree + e.sysdiff + e.otherdiff # e.words THEN "V:sweep-count"
+                  ELSE IF e.otherdiff # 0 THEN "V:disagrees-with-reference"
+                  ELSE IF e.sysdiff # 0 /\ e.chunk # 213 THEN "V:exempt-words-outside-the-system-space"
+                  ELSE "ok"
+Judge(e) == IF e.ev = "chunk" THEN JudgeChunk(e) ELSE IF e.ev = "diff" THEN JudgeDiff(e) ELSE IF e.ev = "dchunk" THEN JudgeDChunk(e) ELSE JudgeWord(e)
 =============================================================================
